@@ -4,10 +4,12 @@ CONSTANTS
   LocalBits <- Local6
   K = 2
   Peers <- Peers8
+  Addrs <- Addrs2
   Targets <- Targets10
   Counts <- Counts4
   MaxOps = 7
 VIEW view
-INVARIANTS Valid NearestOK
+INVARIANTS Valid NearestOK AddrOK SizeOK
+PROPERTIES RemoveGone
 
 CHECK_DEADLOCK FALSE
